@@ -14,8 +14,9 @@ func init() {
 		seed := fs.Int64("seed", 1, "seed of the far sample points")
 		far := fs.Int("far", 24, "number of far sample points per case (0 = none)")
 		idbase := fs.Int("idbase", 0, "index of the first case (seeds the far points)")
+		par := fs.Int("par", 1, "goroutines evaluating the shared closures at the same time")
 		_ = fs.Parse(args)
-		return sdffam.RunCases(*in, *out, *seed, *far, *idbase)
+		return sdffam.RunCases(*in, *out, *seed, *far, *idbase, *par)
 	}
 	commands["sdf-random"] = func(args []string) error {
 		fs := flag.NewFlagSet("sdf-random", flag.ExitOnError)
